@@ -6,7 +6,7 @@ from .sessioncheck import SessionCheck, CLAUSES
 class C01(SessionCheck):
     pid = "C01"
     inst_kwargs = dict(allow_empty_jobs=True, huge=True)
-    gen_kwargs = dict(p_invalid=0.15, p_query=0.05, p_reset=0.03, p_snapshot=1.0)
+    gen_kwargs = dict(p_invalid=0.15, p_query=0.05, p_reset=0.03, p_snapshot=1.0, p_copy=0.06)
     assumptions = ["requests name operations of the dispatcher's own instance",
                    "valid instance: durations >= 0 (the property's own scope)"]
     modelled_not_verified = [
@@ -22,7 +22,8 @@ class C01(SessionCheck):
         for _ in range(1 if self.tier == "quick" else 4):
             nj = rng.randint(86, 100)
             spec = [[[[rng.randrange(4)], rng.randint(0, 3)] for _ in range(3)] for _ in range(nj)]
-            events, _stats = gen.gen_session(rng, spec, p_snapshot=0.02, max_events=3 * nj + 40, stop_early=0.0)
+            events, _stats = gen.gen_session(rng, spec, p_snapshot=0.02, max_events=3 * nj + 40, stop_early=0.0,
+                                             p_copy=0.06)
             cases.append({"spec": spec, "filters": [], "events": events})
             self.note("large_instance_more_than_256_operations")
         return cases
